@@ -205,7 +205,35 @@ sys.exit(1 if bad else 0)
 '''
 
 
+OUTPUT_ORDER = '''
+import sys
+import onnx_ir as ir
+from onnxscript.rewriter import pattern as orp
+def pat(op, x):
+    s0, s1 = op.Split(x, _outputs=2)
+    return s1, s0
+def rep(op, x, **_):
+    return op.Neg(x), op.Abs(x)
+rule = orp.RewriteRule(pat, rep)
+x = ir.Value(name="x", type=ir.TensorType(ir.DataType.FLOAT), shape=ir.Shape([4]))
+sp = ir.Node("", "Split", [x], num_outputs=2, attributes=[ir.AttrInt64("num_outputs", 2)]); sp.outputs[0].name, sp.outputs[1].name = "s0", "s1"
+r0 = ir.node("Relu", [sp.outputs[0]]); r0.outputs[0].name = "y0"
+r1 = ir.node("Sigmoid", [sp.outputs[1]]); r1.outputs[0].name = "y1"
+g = ir.Graph([x], [r0.outputs[0], r1.outputs[0]], nodes=[sp, r0, r1], opset_imports={"": 18}, name="g")
+m = ir.Model(g, ir_version=10)
+n = rule.apply_to_model(m)
+prod = {nd.op_type: nd.inputs[0].producer().op_type for nd in g if nd.op_type in ("Relu", "Sigmoid")}
+print("applied", n, prod)
+ok = n == 1 and prod == {"Relu": "Abs", "Sigmoid": "Neg"}
+if not ok:
+    print("pattern returns (s1, s0), replacement (Neg(x), Abs(x)): the consumer of s0 (Relu) must read Abs, the consumer of s1 (Sigmoid) Neg; got", prod)
+sys.exit(0 if ok else 1)
+'''
+
+
 def replay(ob):
+    if "get_output_values" in ob["name"]:
+        return OUTPUT_ORDER
     if "a_variable_used_twice_binds_one_value_in_every_commuted_variant" in ob["name"] or "a_value_pattern_used_twice" in ob["name"] or "clone.keeps_check_and_optionality" in ob["name"]:
         from contracts import c06_state
         return c06_state.ANON_TWICE
